@@ -50,7 +50,8 @@ type dirCase struct {
 
 var namePool = []string{"a", "b", "src", "lib", "main.go", "x.txt", "README.md", "vendor", "node_modules", ".git", ".hg",
 	".svn", "build", "foo bar", "日本.txt", "é", "a-b", "a.b", "ab", "abc", "out", "tmp", "Makefile", "t.go", "z", "docs",
-	"ignore", "lib2", "vendor2", "x.txt~", "-", "a,b"}
+	"ignore", "lib2", "vendor2", "x.txt~", "-", "a,b", "nl\nname", "tab\tname", "sp ", " lead", "#hash", "*star", "q?", "[br]", "{c}",
+	"back\\slash", strings.Repeat("L", 120) + ".txt"}
 
 var textPool = []string{"package main\n\nfunc main() {}\n", "hello world\n", "needle in a haystack\n", "x := 1\ny := 2\n",
 	"# Title\n\nSome text with ünïcödé.\n", "line1\r\nline2\r\n", "no trailing newline", "abc", "日本語のテキスト\n"}
